@@ -193,7 +193,12 @@ impl<'r> G<'r> {
             1 | 2 => self.read_any_of(scope, |t| t == Ty::Table).unwrap_or_else(|| c(CardBody::CreateTable)),
             3 => {
                 let a = self.scalar_expr(scope, depth - 1);
-                Card::call_native("mk_table", vec![a])
+                if self.rng.chance(1, 3) {
+                    // nested value built through the host API insert_value
+                    Card::call_native("mk_owned", vec![a])
+                } else {
+                    Card::call_native("mk_table", vec![a])
+                }
             }
             _ => {
                 // row object of an existing table
